@@ -954,7 +954,7 @@ def _label_lines(block_lines, base_line, kind, default_prefix):
     out = []
     cur = None
     for off, l in enumerate(block_lines):
-        mm = re.search(r"//\s*OBL:([\w.\-]+)", l)
+        mm = re.search(r"//\s*OBL:([\w.+\-]+)", l)
         if mm:
             cur = mm.group(1)
         lab = cur if cur else "%s@T%d" % (default_prefix, base_line + off)
